@@ -161,9 +161,10 @@ def compare_traces(out, name, ppts, searches, spts, svals, tags, label="evaluati
         if s["above_iter"] == 0 and np.sqrt(dd) < 1.0:
             cut, why = s["first"], "unit_first_step"
             break
-        if s["above_iter"] == 0 and any(a >= 1.0 - 1e-12 for a in alphas[1:] if a == a) or (s["above_iter"] == 0 and alphas and alphas[0] >= 1.0 - 1e-12 and np.sqrt(dd) > 1.0 + 1e-12):
-            # a trial clipped by the first-iteration cap (max step 1.0): compare up to, not including, that trial
-            k = next(i for i, a in enumerate(alphas) if a >= 1.0 - 1e-12)
+        if s["above_iter"] == 0 and any(a >= 1.0 - 1e-12 for a in alphas[1:] if a == a):
+            # a later trial clipped by the first-iteration cap (max step 1.0; the reference allows 1e10): compare up to,
+            # not including, that trial. The first trial is 1/|d| <= 1 here, the cap cannot bind on it.
+            k = next(i for i, a in enumerate(alphas) if i >= 1 and a >= 1.0 - 1e-12)
             cut, why = s["first"] + k, "first_iteration_cap"
             break
         if s["ret"] is None or not alphas or abs(float(s["ret"]) - alphas[-1]) > 1e-12 * max(1.0, abs(alphas[-1])):
